@@ -354,7 +354,7 @@ prop(
 
 prop(
     "C23",
-    lean_modules=["BloomVerif.Lemmas.Stats", "BloomVerif.Props.C23"],
+    lean_modules=["BloomVerif.Lemmas.Stats", "BloomVerif.Bridge.StatsLoop", "BloomVerif.Props.C23"],
     technique="Lean 4 proof on the read-plan model (at most once, all-or-none per file, skipped blocks are not read) and on the accounting model (skipped blocks report zero, processed blocks report all their rows, every returned row's block is listed as processed, totals are the per-block sums in any completion order, RowsMatched = rows returned) + exact comparison of Results.Stats with the plan computed from model/filter verdicts, with failures injected",
     design_ref="DESIGN.md section 4 C23",
     text="Machine-checked for the failure-free plan: each evaluated block is listed at most once, a file lists all or none of its prefilter-surviving blocks, a skipped block is not among the row reads; and for the accounting model (Model/Stats): a skipped entry reports zero rows and bytes, a processed entry its block's row count and uncompressed bytes, every returned row comes from a block listed as processed, the totals equal the per-block sums and do not depend on the order in which workers finished, RowsMatched equals the number of rows returned. On clean completion the entries and sums of every file are compared with that model. On real layouts the harness computes prefilter verdicts with the Lean model and filter verdicts "
